@@ -16,7 +16,7 @@
 From Coq Require Import List ZArith Bool Arith NArith Lia.
 From Verif Require Import Conc.Machine Conc.Capture.
 Import ListNotations.
-Open Scope Z_scope.
+Local Open Scope Z_scope.
 
 Inductive tpl := TPipeline | TFanout | TMutex | TProdCons | TSelMain | TSelPriv | TClosure
                | THostCall | TMulti | TSelSend | TSelSendX.
